@@ -2480,24 +2480,46 @@ def collapse_aliases(fn):
                 if any(isinstance(n, (ast.Global, ast.Nonlocal))
                        for n in ast.walk(fn)):
                     continue
-                # x must not be read in the statements after the alias
-                later = blk[i + 1:]
-                if any(isinstance(n, ast.Name) and n.id == x and isinstance(
-                        n.ctx, ast.Load) for s_ in later
-                        for n in ast.walk(s_)):
-                    continue
                 # nested functions capturing either name: leave alone
                 if any(isinstance(n, ast.Name) and n.id in (x, y)
                        for d in ast.walk(fn) if d is not fn and isinstance(
                            d, (ast.FunctionDef, ast.Lambda))
                        for n in ast.walk(d)):
                     continue
+                # a generated name aliasing a settled one (every binding of
+                # x lies in the statements before the alias, which is a
+                # top-level statement of the function): y is x from here on
+                # and has no value before -> y is spelled x
+                gen_y = "__h" in y or "__e" in y or "__inl" in y
+                if gen_y and par is fn and fld == "body":
+                    before = {id(n) for s_ in blk[:i]
+                              for n in ast.walk(s_)}
+                    if all(id(n) in before for n in names if n.id == x
+                           and isinstance(n.ctx, (ast.Store, ast.Del))):
+                        for n in names:
+                            if n.id == y:
+                                n.id = x
+                        del blk[i]
+                        done = True
+                        break
+                # x must not be read in the statements after the alias
+                later = blk[i + 1:]
+                if any(isinstance(n, ast.Name) and n.id == x and isinstance(
+                        n.ctx, ast.Load) for s_ in later
+                        for n in ast.walk(s_)):
+                    continue
                 # only when the alias is the last thing done with x in its
                 # block and x is created in the same block (a built-up list)
                 if not any(isinstance(s_, ast.Assign) and any(
                         isinstance(t, ast.Name) and t.id == x
                         for t in s_.targets) for s_ in blk[:i]):
-                    continue
+                    # (or: a generated name all of whose bindings lie in
+                    # the statements before the alias)
+                    before = {id(n) for s_ in blk[:i]
+                              for n in ast.walk(s_)}
+                    if not (("__h" in x or "__inl" in x) and all(
+                            id(n) in before for n in x_stores)):
+                        continue
                 for n in names:
                     if n.id == x:
                         n.id = y
@@ -5388,3 +5410,84 @@ def dissolve_namespace_classes(tree):
     if changed:
         ast.fix_missing_locations(tree)
     return changed
+
+
+def scalarise_local_tuples(fn):
+    """`k = (e0, e1, e2)` (bound once, outside loops) that is only read as
+    `k[<literal index>]` or unpacked whole (`a, b, c = k`) -> one local per
+    element (`k__e0 = e0` ...), the reads name the element locals"""
+    stores = {}
+    for n in ast.walk(fn):
+        if isinstance(n, ast.Name) and isinstance(n.ctx, (ast.Store,
+                                                          ast.Del)):
+            stores[n.id] = stores.get(n.id, 0) + 1
+        elif isinstance(n, ast.arg):
+            stores[n.arg] = stores.get(n.arg, 0) + 1
+    done = False
+    for par in [fn] + list(_walk_own(fn)):
+        for fld in ("body", "orelse", "finalbody"):
+            blk = getattr(par, fld, None)
+            if not isinstance(blk, list):
+                continue
+            for st in list(blk):
+                if not (isinstance(st, ast.Assign) and len(st.targets) == 1
+                        and isinstance(st.targets[0], ast.Name)
+                        and isinstance(st.value, ast.Tuple)
+                        and len(st.value.elts) >= 2 and not any(
+                            isinstance(e, ast.Starred)
+                            for e in st.value.elts)):
+                    continue
+                k = st.targets[0].id
+                if stores.get(k) != 1:
+                    continue
+                if any(isinstance(lp, (ast.For, ast.While, ast.AsyncFor))
+                       and any(x is st for x in ast.walk(lp))
+                       for lp in ast.walk(fn) if lp is not fn):
+                    continue
+                n_ = len(st.value.elts)
+                refs = [n for n in ast.walk(fn) if isinstance(n, ast.Name)
+                        and n.id == k and isinstance(n.ctx, ast.Load)]
+                subs = [n for n in ast.walk(fn) if isinstance(
+                    n, ast.Subscript) and isinstance(n.value, ast.Name)
+                    and n.value.id == k and isinstance(n.ctx, ast.Load)
+                    and isinstance(n.slice, ast.Constant) and isinstance(
+                        n.slice.value, int) and not isinstance(
+                        n.slice.value, bool)
+                    and -n_ <= n.slice.value < n_]
+                unp = [u for u in ast.walk(fn) if isinstance(u, ast.Assign)
+                       and len(u.targets) == 1 and isinstance(
+                           u.targets[0], ast.Tuple) and isinstance(
+                           u.value, ast.Name) and u.value.id == k
+                       and len(u.targets[0].elts) == n_ and not any(
+                           isinstance(e, ast.Starred)
+                           for e in u.targets[0].elts)]
+                if not unp or len(refs) != len(subs) + len(unp):
+                    continue
+                if any(isinstance(d, (ast.Lambda, ast.FunctionDef,
+                                      ast.ListComp, ast.GeneratorExp,
+                                      ast.SetComp, ast.DictComp))
+                       and d is not fn and any(
+                           isinstance(n, ast.Name) and n.id == k
+                           for n in ast.walk(d)) for d in ast.walk(fn)):
+                    continue
+                names = [f"{k}__e{i}" for i in range(n_)]
+                if any(nm in stores for nm in names):
+                    continue
+                for sb in subs:
+                    _replace_in(fn, sb, ast.Name(
+                        id=names[sb.slice.value % n_], ctx=ast.Load()))
+                for u in unp:
+                    u.value = ast.copy_location(ast.Tuple(
+                        elts=[ast.Name(id=nm, ctx=ast.Load())
+                              for nm in names], ctx=ast.Load()), u.value)
+                new = [ast.copy_location(ast.Assign(
+                    targets=[ast.Name(id=nm, ctx=ast.Store())], value=e),
+                    st) for nm, e in zip(names, st.value.elts)]
+                i = [j for j, x in enumerate(blk) if x is st][0]
+                blk[i:i + 1] = new
+                for nm in names:
+                    stores[nm] = 1
+                done = True
+    if done:
+        ast.fix_missing_locations(fn)
+    return done
